@@ -70,3 +70,15 @@ Example c13_late_listener :
   nth_error (bthreads s) 3 = Some (BSync 1 (SyDone RetServerClosed)) /\
   map l_acc (lsts s) = [ANone; AClosed].
 Proof. vm_compute. repeat split; reflexivity. Qed.
+
+(* non-vacuity for Listen error paths: the transport factory's Listen fails for the first Sync of listener 0
+   (nothing bound; the listener STAYS registered), the user calls Async again on the same Listener, that accept
+   loop starts - and Shutdown, finding the listener in the registry, closes its acceptor: the loop ends with the
+   server-closed error.  (A listener unregistered by the failed attempt would be left accepting for ever.) *)
+Example c13_listen_failure_then_retry :
+  let s := brun (binit 1 [BListen 0 false; BRetry 0 false])
+             [EvThread 0 false; EvThread 2 true; EvThread 1 false; EvThread 3 false;
+              EvShutdown 0; EvShutdown 0; EvShutdown 1; EvShutdown 0; EvShutdown 0; EvShutdown 0; EvThread 3 false] in
+  sh s = ShDone /\ bquiescent s = true /\ no_open_acceptor s = true /\
+  bthreads s = [BListen 0 true; BRetry 0 true; BSync 0 (SyDone RetListenErr); BSync 0 (SyDone RetServerClosed)].
+Proof. vm_compute. repeat split; reflexivity. Qed.
